@@ -30,6 +30,10 @@ def build_pair(rng, code, sid_len, req_has_sid, ans_has_sid, has_exp, has_rc, pr
         req.append(SessionIdAVP(rsid))
     req.append(OriginHostAVP("client.example"))
     # the handler's answer: generic or typed, its own (different) identifiers
+    by_code = ans_cls_idx == 3          # the handler builds its result AVPs by code (plain DiameterAVP objects), as docs/avps.md shows
+    if by_code:
+        ans_cls_idx = 0
+    from bromelia.base import DiameterAVP
     if ans_cls_idx == 0:
         ans = DiameterAnswer(command_code=316, application_id=(7).to_bytes(4, "big"))
         if ans_has_sid:
@@ -37,7 +41,7 @@ def build_pair(rng, code, sid_len, req_has_sid, ans_has_sid, has_exp, has_rc, pr
         ans.append(OriginHostAVP("server.example"))
         ans.append(OriginRealmAVP("example"))
         if has_rc:
-            ans.append(ResultCodeAVP(code.to_bytes(4, "big")))
+            ans.append(DiameterAVP(code=268, flags=0x40, data=code.to_bytes(4, "big")) if by_code else ResultCodeAVP(code.to_bytes(4, "big")))
     else:
         cls = [UpdateLocationAnswer, CancelLocationAnswer][ans_cls_idx - 1]
         kw = {"session_id": b"stale;1;2", "origin_host": "server.example", "origin_realm": "example"}
@@ -58,11 +62,12 @@ def describe(ans):
     """the abstract state of an answer (what Model/Decorate.lean looks at)"""
     h = ans.header
     sid = ans.session_id_avp.data if ans.has_avp("session_id_avp") else None
-    rc = int.from_bytes(ans.result_code_avp.data, "big") if ans.has_avp("result_code_avp") else None
-    exp = ans.has_avp("experimental_result_avp")
+    by = lambda c: [a for a in ans.avps if int.from_bytes(a.code, "big") == c and not a.vendor_id]       # by code, whatever the class
+    rc = int.from_bytes(by(268)[0].data, "big") if by(268) else None
+    exp = bool(by(297))
     rest = 0
     for a in ans.avps:
-        if a is getattr(ans, "session_id_avp", None) or a is getattr(ans, "result_code_avp", None):
+        if a is getattr(ans, "session_id_avp", None) or (by(268) and a is by(268)[0]):
             continue
         rest += padded(a)
     return {"flags": h.get_flags(), "app": h.get_application_id(), "hbh": h.get_hop_by_hop(), "e2e": h.get_end_to_end(),
@@ -145,12 +150,12 @@ def run(chk):
         codes += [rng.randrange(7000, 65536) for _ in range(1500)] + [rng.randrange(2 ** 32) for _ in range(500)]
     cases = []
     for i, code in enumerate(codes):
-        cases.append((code, i % 10, True, True, False, True, False, i % 3))
+        cases.append((code, i % 10, True, True, False, True, False, i % 4))
     for code in BOUNDARY_CODES:
         for sid_len in (0, 1, 2, 3, 4, 5, 7, 8, 33):
             for req_sid, ans_sid in ((True, True), (True, False), (False, True), (False, False)):
                 for has_exp in (False, True):
-                    cases.append((code, sid_len, req_sid, ans_sid, has_exp, True, False, (code + sid_len) % 3))
+                    cases.append((code, sid_len, req_sid, ans_sid, has_exp, True, False, (code + sid_len) % 4))
         cases.append((code, 6, True, True, False, True, True, 0))          # E preset by the handler
         cases.append((code, 6, True, True, True, False, False, 1))         # Experimental-Result only
         cases.append((code, 6, True, False, False, False, False, 2))       # neither result AVP
